@@ -1,9 +1,10 @@
 // C10: in-process handlers get metadata, peer, deadline and cancellation, but
 // none of the caller's context values.
 //
-// Bounded-exhaustive: every subset of six caller-context layers {string key,
-// struct key, outgoing metadata, incoming metadata, peer, enclosing
-// grpc.ServerTransportStream} in two stacking orders x base context
+// Bounded-exhaustive: every subset of eight caller-context layers {string key,
+// struct key, outgoing metadata (NewOutgoingContext), incoming metadata, peer,
+// enclosing grpc.ServerTransportStream, appended outgoing pairs, context-typed
+// value} in two stacking orders x base context
 // {background, inside an in-process unary handler, inside an in-process stream
 // handler} x {deadline, none} x {unary, stream} x {with, without channel-level
 // server interceptors}. The oracle runs inside the real handler (and inside the
@@ -35,7 +36,11 @@ import (
 
 const guard = 30 * time.Second // hang guard only; nothing is decided by elapsed time
 
-var layerNames = []string{"string-key", "struct-key", "outgoing-md", "incoming-md", "peer", "transport-stream"}
+// outgoing-md is metadata.NewOutgoingContext alone (the caller keeps the map);
+// outgoing-appended adds AppendToOutgoingContext pairs (grpc merges those into a
+// fresh map, a different path); context-value is a caller value whose dynamic
+// type is itself a context.Context carrying a value of its own.
+var layerNames = []string{"string-key", "struct-key", "outgoing-md", "incoming-md", "peer", "transport-stream", "outgoing-appended", "context-value"}
 
 type kase struct {
 	Base     string `json:"base"`   // background | in-unary-handler | in-stream-handler
@@ -111,6 +116,8 @@ type runState struct {
 	fakeSTS     *fakeSTS
 	origOut     metadata.MD // the map the caller handed to metadata.NewOutgoingContext
 	values      []kv
+	innerKeys   []interface{} // keys set only inside a context-typed caller value
+	cleanup     []func()
 
 	wantIncoming   metadata.MD // = the caller's outgoing metadata
 	callerIncoming metadata.MD
@@ -185,8 +192,18 @@ func (st *runState) applyLayer(ctx context.Context, i int) context.Context {
 		st.values = append(st.values, kv{"struct-key", ctxKey{7}, v})
 		return context.WithValue(ctx, ctxKey{7}, v)
 	case "outgoing-md":
-		st.origOut = metadata.Pairs("out-key", "a", "out-key", "b", "shared-key", "from-outgoing")
-		return metadata.AppendToOutgoingContext(metadata.NewOutgoingContext(ctx, st.origOut), "out-appended", "x")
+		st.origOut = metadata.Pairs("out-key", "a", "out-key", "b", "shared-key", "from-outgoing", "out-doomed", "d")
+		return metadata.NewOutgoingContext(ctx, st.origOut)
+	case "outgoing-appended":
+		return metadata.AppendToOutgoingContext(ctx, "out-appended", "x", "shared-key", "from-appended")
+	case "context-value":
+		inner := new(int)
+		app := context.WithValue(context.Background(), ctxKey{11}, inner)
+		app2, cancelApp := context.WithCancel(context.WithValue(context.Background(), "app-inner", inner))
+		st.cleanup = append(st.cleanup, cancelApp)
+		st.values = append(st.values, kv{"context-value", ctxKey{9}, app}, kv{"context-value", "app-context", app2})
+		st.innerKeys = append(st.innerKeys, ctxKey{11}, "app-inner")
+		return context.WithValue(context.WithValue(ctx, ctxKey{9}, app), "app-context", app2)
 	case "incoming-md":
 		return metadata.NewIncomingContext(ctx, metadata.Pairs("in-key", "i", "shared-key", "from-incoming"))
 	case "peer":
@@ -228,7 +245,13 @@ func (st *runState) buildCaller(base context.Context) (context.Context, context.
 	}
 	st.wantIncoming, _ = metadata.FromOutgoingContext(ctx)
 	st.callerIncoming, _ = metadata.FromIncomingContext(ctx)
-	return ctx, func() { cancel(); cancelDL() }
+	return ctx, func() {
+		cancel()
+		cancelDL()
+		for _, f := range st.cleanup {
+			f()
+		}
+	}
 }
 
 func (st *runState) call(cc grpc.ClientConnInterface, ctx context.Context) error {
@@ -287,7 +310,9 @@ func (st *runState) drive(cc grpc.ClientConnInterface, base context.Context) {
 		}
 	}
 	if st.origOut != nil {
-		st.origOut["caller-added"] = []string{"late"}
+		st.origOut.Set("caller-added", "late")
+		st.origOut.Set("out-key", "replaced")
+		delete(st.origOut, "out-doomed")
 	}
 	close(st.proceed)
 	if !wait(st.cancelReady) {
@@ -320,6 +345,11 @@ func (st *runState) static(ctx context.Context, where string) {
 	for _, e := range st.values {
 		if v := ctx.Value(e.key); v != nil {
 			add("value-leak:"+e.layer, fmt.Sprintf("ctx.Value(%#v) is not nil (it is the caller's value: %v)", e.key, v == e.val))
+		}
+	}
+	for _, k := range st.innerKeys {
+		if v := ctx.Value(k); v != nil {
+			add("value-leak:context-value", fmt.Sprintf("ctx.Value(%#v) is not nil: a value stored only inside a context-typed caller value is visible", k))
 		}
 	}
 	if md, ok := metadata.FromOutgoingContext(ctx); ok && len(md) > 0 {
